@@ -177,7 +177,7 @@ Proof.
   intros Hk H.
   assert (E : read t b = match scalar_size t with
                          | Some k => if (len b <? N.of_nat k)%N then Err else Ok (VU (unbe (firstn k b)), skipn k b)
-                         | None => Err end) by (destruct t; try discriminate; reflexivity).
+                         | None => Err end) by (destruct t; try discriminate; cbn [scalar_size]; rewrite <- short_len; reflexivity).
   rewrite E, Hk in H. destruct (len b <? N.of_nat k)%N; [discriminate|]. inversion H. eexists; reflexivity.
 Qed.
 
